@@ -29,7 +29,8 @@ def run_generic(prop, cfg, tier, seed, t0, post=None):
         problems.append({"kind": "proof", "theorem_file": cfg["coq"], "problems": pr["problems"],
                          "log_tail": pr["log"][-2500:]})
     # ---- 2. harness build from /repo's working tree
-    ok, out, build_s = vlib.harness_build()
+    hbin = cfg.get("bin", "tfh")
+    ok, out, build_s = vlib.harness_build(bin=hbin)
     failures, tie, search_info = [], None, None
     outdir = os.path.join(vlib.WORK, prop)
     if not ok:
@@ -38,7 +39,7 @@ def run_generic(prop, cfg, tier, seed, t0, post=None):
     else:
         n = cfg["n"][tier]
         extra = list(cfg.get("extra", {}).get(tier, []))
-        rc, hout, run_s = vlib.harness_run(cfg["sub"], seed, n, outdir, extra)
+        rc, hout, run_s = vlib.harness_run(cfg["sub"], seed, n, outdir, extra, bin=hbin)
         if rc != 0 or not os.path.exists(os.path.join(outdir, "summary.json")):
             problems.append({"kind": "harness-run", "problems": ["harness exited with %s" % rc], "log_tail": hout[-4000:]})
         else:
@@ -57,7 +58,7 @@ def run_generic(prop, cfg, tier, seed, t0, post=None):
     if problems and not unknown and ok and cfg.get("search", True):
         n2 = cfg["n"][tier] * cfg.get("search_factor", 10)
         sdir = outdir + ".search"
-        rc, hout, _ = vlib.harness_run(cfg["sub"], seed + 1, n2, sdir, list(cfg.get("extra", {}).get(tier, [])) + ["--oracle-only"])
+        rc, hout, _ = vlib.harness_run(cfg["sub"], seed + 1, n2, sdir, list(cfg.get("extra", {}).get(tier, [])) + ["--oracle-only"], bin=hbin)
         if rc == 0 and os.path.exists(os.path.join(sdir, "summary.json")):
             s = json.load(open(os.path.join(sdir, "summary.json")))
             _, hits2, unknown2 = classify(prop, s["oracle_failures"])
